@@ -112,7 +112,7 @@ Qed.
 (* ------------------------------------------------------------------------------------------------ *)
 (* index arithmetic of the model under the size bound                                                *)
 (* ------------------------------------------------------------------------------------------------ *)
-Definition fits (W H : Z) : Prop := 1 <= W /\ 1 <= H /\ W * H * 4 < 4294967296.
+Definition fits (W H : Z) : Prop := 1 <= W /\ 1 <= H /\ W * H * 4 < 18446744073709551616.
 
 Lemma canvas_index_ok W H ox oy x y : fits W H -> 0 <= ox -> 0 <= oy -> 0 <= x -> 0 <= y ->
   x + ox < W -> y + oy < H ->
@@ -185,7 +185,7 @@ Proof.
   intros HF HL Hox Hoy Hw Hh Hfx Hfy HLf. unfold blend_rect, rect_result.
   apply (rows_loop W H fx fy fw fh (fun x y old => do_alpha_blending (get4 frame ((x + y * fw) * 4)) old)); try assumption; try lia.
   intros y t Hy HLt.
-  assert (HB : W * H * 4 < 4294967296) by (destruct HF as (_ & _ & HB); exact HB).
+  assert (HB : W * H * 4 < 18446744073709551616) by (destruct HF as (_ & _ & HB); exact HB).
   assert (HfB : fw * fh <= W * H) by (destruct HF as (HW & HH & _); nia).
   destruct (pixel_row_loop (W * H * 4) (fx + (y + fy) * W) fw
      (fun x old => do_alpha_blending (get4 frame ((x + y * fw) * 4)) old)
@@ -219,7 +219,7 @@ Proof.
   intros HF HL Hox Hoy Hw Hh Hfx Hfy HLf. unfold copy_rgba_rect, rect_result.
   apply (rows_loop W H fx fy fw fh (fun x y _ => get4 frame ((x + y * fw) * 4))); try assumption; try lia.
   intros y t Hy HLt.
-  assert (HB : W * H * 4 < 4294967296) by (destruct HF as (_ & _ & HB); exact HB).
+  assert (HB : W * H * 4 < 18446744073709551616) by (destruct HF as (_ & _ & HB); exact HB).
   assert (HfB : fw * fh <= W * H) by (destruct HF as (HW & HH & _); nia).
   pose proof (slot_bound fw fh 0 y ltac:(lia) ltac:(lia)) as Hsf.
   assert (Hrow : y * fw + fw <= fw * fh) by nia.
@@ -251,7 +251,7 @@ Proof.
     (fun x y _ => (zraw frame ((x + y * fw) * 3), zraw frame ((x + y * fw) * 3 + 1), zraw frame ((x + y * fw) * 3 + 2), 255)));
     try assumption; try lia.
   intros y t Hy HLt.
-  assert (HB : W * H * 4 < 4294967296) by (destruct HF as (_ & _ & HB); exact HB).
+  assert (HB : W * H * 4 < 18446744073709551616) by (destruct HF as (_ & _ & HB); exact HB).
   assert (HfB : fw * fh <= W * H) by (destruct HF as (HW & HH & _); nia).
   pose proof (slot_bound fw fh 0 y ltac:(lia) ltac:(lia)) as Hsf.
   assert (Hrow : y * fw + fw <= fw * fh) by nia.
